@@ -103,14 +103,14 @@ Proof.
 Qed.
 
 (* one read from a queue holding one chunk that has arrived *)
-Lemma io_read_healthy : forall win w t d,
+Lemma io_read_healthy_dl : forall dl win w t d,
   win <> 0 -> w_script w = [] -> w_inq w = [(t, d)] -> t <= w_now w -> d <> [] -> lenN d <= BIG ->
   let n := N.min win (lenN d) in
-  exists w1, io_read win None w = (w1, RData (takeN n d)) /\
+  exists w1, io_read win dl w = (w1, RData (takeN n d)) /\
     w_sess w1 = w_sess w /\ w_script w1 = [] /\ w_now w1 = w_now w /\
     w_inq w1 = match dropN n d with [] => [] | r => [(w_now w, r)] end.
 Proof.
-  intros win w t d Hw Hs Hi Ht Hd Hl n. unfold io_read.
+  intros dl win w t d Hw Hs Hi Ht Hd Hl n. unfold io_read.
   destruct (N.eqb_spec win 0) as [E|_]; [contradiction|].
   rewrite (next_ev_healthy w Hs). cbn [N.eqb]. rewrite Hi. cbn [avail_split].
   destruct (N.leb_spec t (w_now w)) as [_|L]; [|lia]. rewrite app_nil_r.
@@ -123,20 +123,28 @@ Proof.
   destruct (dropN n (x :: d')); reflexivity.
 Qed.
 
+Lemma io_read_healthy : forall win w t d,
+  win <> 0 -> w_script w = [] -> w_inq w = [(t, d)] -> t <= w_now w -> d <> [] -> lenN d <= BIG ->
+  let n := N.min win (lenN d) in
+  exists w1, io_read win None w = (w1, RData (takeN n d)) /\
+    w_sess w1 = w_sess w /\ w_script w1 = [] /\ w_now w1 = w_now w /\
+    w_inq w1 = match dropN n d with [] => [] | r => [(w_now w, r)] end.
+Proof. exact (io_read_healthy_dl None). Qed.
+
 (* ---------- the packet reader pulls the CONNACK in ---------- *)
-Lemma fill_step : forall f w r' win t d,
+Lemma fill_step_dl : forall dl f w r' win t d,
   packet_available (s_reader (w_sess w)) = false -> receive_buffer (s_reader (w_sess w)) = (r', Some win) -> win <> 0 ->
   w_script w = [] -> w_inq w = [(t, d)] -> t <= w_now w -> d <> [] -> lenN d <= BIG ->
   let n := N.min win (lenN d) in
-  exists w2, fill_packet_reader (S f) None w = fill_packet_reader f None w2 /\
+  exists w2, fill_packet_reader (S f) dl w = fill_packet_reader f dl w2 /\
     w_sess w2 = set_reader (w_sess w) (commit r' (takeN n d)) /\
     w_script w2 = [] /\ w_now w2 = w_now w /\
     w_inq w2 = match dropN n d with [] => [] | r => [(w_now w, r)] end.
 Proof.
-  intros f w r' win t d Ha Hr Hw Hs Hi Ht Hd Hl n. cbn [fill_packet_reader]. rewrite Ha, Hr.
+  intros dl f w r' win t d Ha Hr Hw Hs Hi Ht Hd Hl n. cbn [fill_packet_reader]. rewrite Ha, Hr.
   destruct (N.eqb_spec win 0) as [E|_]; [contradiction|].
   set (w0 := upd_sess w (set_reader (w_sess w) r')).
-  destruct (io_read_healthy win w0 t d Hw Hs Hi Ht Hd Hl) as [w1 [Er [S1 [S2 [S3 S4]]]]]. fold n in Er, S4.
+  destruct (io_read_healthy_dl dl win w0 t d Hw Hs Hi Ht Hd Hl) as [w1 [Er [S1 [S2 [S3 S4]]]]]. fold n in Er, S4.
   rewrite Er.
   assert (Hn : takeN n d <> []).
   { destruct d as [|x d']; [contradiction|]. unfold n. rewrite lenN_cons.
@@ -145,6 +153,16 @@ Proof.
   eexists. split; [reflexivity|]. cbn [w_sess w_script w_now w_inq upd_sess]. rewrite S1. cbn [w0 w_sess upd_sess set_reader s_reader].
   repeat split; try assumption; try reflexivity.
 Qed.
+
+Lemma fill_step : forall f w r' win t d,
+  packet_available (s_reader (w_sess w)) = false -> receive_buffer (s_reader (w_sess w)) = (r', Some win) -> win <> 0 ->
+  w_script w = [] -> w_inq w = [(t, d)] -> t <= w_now w -> d <> [] -> lenN d <= BIG ->
+  let n := N.min win (lenN d) in
+  exists w2, fill_packet_reader (S f) None w = fill_packet_reader f None w2 /\
+    w_sess w2 = set_reader (w_sess w) (commit r' (takeN n d)) /\
+    w_script w2 = [] /\ w_now w2 = w_now w /\
+    w_inq w2 = match dropN n d with [] => [] | r => [(w_now w, r)] end.
+Proof. exact (fill_step_dl None). Qed.
 
 Lemma connack_decodes : forall b, from_buffer [32; 3; (if b : bool then 0 else 1); 0; 0] = Some (RConnAck (negb b) 0 []).
 Proof. intros []; vm_compute; reflexivity. Qed.
